@@ -52,7 +52,8 @@ SimplifyJudge(e) ==
                /\ AllHoldAt(e.ctx \o e.S, e.hints.infeas.q, e.hints.infeas.d)
             THEN <<"violation", "valueerror-on-feasible-system">>
        ELSE <<"unjudged", "valueerror">>
-  ELSE IF ~e.ok THEN <<"unjudged", "snap">>
+  ELSE IF ~e.ok THEN (IF e.eqok /\ ~Selection(e.S, e.R) THEN <<"violation", "selection">>     \* rows of wide magnitude can still be COMPARED exactly
+                      ELSE <<"unjudged", "snap">>)
   ELSE IF ~Selection(e.S, e.R) THEN <<"violation", "selection">>
   ELSE IF Len(e.hints.equiv) # Len(e.S) \/ Len(e.hints.irred) # Len(e.R) THEN <<"malformed", "hints">>
   ELSE LET eq == [j \in DOMAIN e.S |-> Decide(e.ctx \o e.R, e.names, e.S[j], e.hints.equiv[j], e.g)]
